@@ -116,6 +116,12 @@ func Run(P *sx.Program, id, tier string, seed int64, verifDir string, verbose bo
 		}
 		units = sel
 	}
+	P.M.SolveHyps = vc.SolveHyps
+	if P.M.Concretize == nil {
+		// expr.Width determines the shape of expression trees: a width
+		// computed from symbolic data is split into its feasible values
+		P.M.Concretize = map[string]int{"mltwist/pkg/expr.Width": 255}
+	}
 	rep := vc.Check(P.M, units, vc.Config{Timeout: timeout, Verbose: verbose})
 	if verbose {
 		for _, o := range rep.Outcomes {
